@@ -2,7 +2,7 @@
    to the same object".  About Model/DynReg.v:config_header (ImportManager.add_import / require_configurable /
    minimal_selector under dynamic registration). *)
 From Coq Require Import List String Ascii ZArith Bool Arith Lia Permutation.
-From GinV Require Import Lib.Out Lib.PyStr Model.SelectorMap Model.Serial Model.DynReg Proofs.SerialProofs Proofs.SerialProofs2 Proofs.DynRegProofs.
+From GinV Require Import Lib.Out Lib.PyStr Model.SelectorMap Model.Serial Model.DynReg Proofs.SerialProofs Proofs.SerialProofs2 Proofs.DynRegProofs Proofs.DynRegSkip.
 Import ListNotations.
 Open Scope string_scope.
 Open Scope list_scope.
@@ -871,15 +871,43 @@ Proof.
   - intros d Hin. apply in_app_or in Hin. destruct Hin as [Hin|Hin]; [rewrite Hs in Hin; exact (Hok d Hin)|].
     apply filter_In in Hin. exact (Hc d (proj1 Hin)).
 Qed.
-(* the states reached by a sequence of parse calls, from a start with some pre-registered configurables *)
+(* the same with skip_unknown *)
+Lemma run_stmts_sk_imports : forall skipf univ sk stmts s refs c s' refs' c' e, pget "__gin__" univ = None ->
+  imports_ok (c_imports c) -> run_stmts_sk skipf univ sk stmts s refs c = (s', refs', c', e) ->
+  imports_ok (c_imports c') /\ ds_imports s' = ds_imports s.
+Proof.
+  intros skipf univ sk stmts s refs c s' refs' c' e Hu Hok Hrun.
+  eapply (run_stmts_sk_inv skipf univ (fun s0 _ c0 => imports_ok (c_imports c0) /\ ds_imports s0 = ds_imports s));
+    [|split; [exact Hok|reflexivity]|exact Hrun].
+  intros stmts0 s0 refs0 c0 s1 refs1 c1 e1 [H1 H2] Hr.
+  destruct (run_stmts_imports _ _ _ _ _ _ _ _ _ Hu H1 Hr) as [H3 H4]. split; [exact H3|congruence].
+Qed.
+Theorem parse_call_sk_imports_ok : forall univ sk stmts sr, pget "__gin__" univ = None ->
+  imports_ok (ds_imports (fst sr)) -> imports_ok (ds_imports (fst (fst (parse_call_sk univ sk stmts sr)))).
+Proof.
+  intros univ sk stmts [s refs] Hu Hok. unfold parse_call_sk.
+  destruct (run_stmts_sk should_skip_dyn univ sk stmts s refs empty_ctx) as [[[s' refs'] c'] e] eqn:Hrun.
+  assert (H0 : imports_ok (c_imports empty_ctx)) by (intros d []).
+  destruct (run_stmts_sk_imports _ _ _ _ _ _ _ _ _ _ _ Hu H0 Hrun) as [Hc Hs].
+  cbn [fst] in Hok. destruct e as [cls|]; cbn [fst ds_imports].
+  - rewrite Hs. exact Hok.
+  - intros d Hin. apply in_app_or in Hin. destruct Hin as [Hin|Hin]; [rewrite Hs in Hin; exact (Hok d Hin)|].
+    apply filter_In in Hin. exact (Hc d (proj1 Hin)).
+Qed.
+(* the states reached by a sequence of parse calls (each with its own skip_unknown), from a start with some
+   pre-registered configurables: exactly the fold of DynReg.run *)
 Inductive reachable (univ : list (string * pyobj)) (pre : list centry)
   : dstate * list ((string * string) * string * string) -> Prop :=
 | reach_init : reachable univ pre ({| ds_reg := pre; ds_store := []; ds_imports := []; ds_dynamic_seen := false |}, [])
-| reach_call : forall sr stmts, reachable univ pre sr -> reachable univ pre (fst (parse_call univ stmts sr)).
+| reach_call : forall sr sk stmts, reachable univ pre sr -> reachable univ pre (fst (parse_call_sk univ sk stmts sr)).
+(* a plain parse_call is the call with skip_unknown=False *)
+Lemma reach_parse_call : forall univ pre sr stmts, class_ids_ok (PMod univ) = true ->
+  reachable univ pre sr -> reachable univ pre (fst (parse_call univ stmts sr)).
+Proof. intros univ pre sr stmts Hu H. rewrite <- (parse_call_sk_false univ stmts sr Hu). apply reach_call. exact H. Qed.
 Theorem reachable_imports_ok : forall univ pre sr, pget "__gin__" univ = None -> reachable univ pre sr ->
   imports_ok (ds_imports (fst sr)).
 Proof.
-  intros univ pre sr Hu H. induction H as [|sr stmts H IH]; [intros d []|]. apply parse_call_imports_ok; assumption.
+  intros univ pre sr Hu H. induction H as [|sr sk stmts H IH]; [intros d []|]. apply parse_call_sk_imports_ok; assumption.
 Qed.
 
 (* ---- the import sources of registered configurables are not in the __gin__ name space either ---- *)
@@ -1008,13 +1036,36 @@ Proof.
   pose proof (run_stmts_src_ok _ _ _ _ _ _ _ _ _ Hu H0 Hok Hrun) as H.
   destruct e as [cls|]; cbn [fst ds_reg]; exact H.
 Qed.
+Lemma run_stmts_tab_ok : forall univ stmts s refs c s' refs' c' e, pget "__gin__" univ = None -> tab_ok c ->
+  run_stmts univ stmts s refs c = (s', refs', c', e) -> tab_ok c'.
+Proof.
+  intros univ stmts s refs c s' refs' c' e Hu Hc Hrun. eapply (run_stmts_ctx_inv tab_ok univ); [|exact Hc|exact Hrun].
+  intros c0 d c1 H0 Hp. eapply process_import_tab_ok; eauto.
+Qed.
+Lemma run_stmts_sk_src_ok : forall skipf univ sk stmts s refs c s' refs' c' e, pget "__gin__" univ = None ->
+  tab_ok c -> reg_src_ok (ds_reg s) -> run_stmts_sk skipf univ sk stmts s refs c = (s', refs', c', e) -> reg_src_ok (ds_reg s').
+Proof.
+  intros skipf univ sk stmts s refs c s' refs' c' e Hu Htab Hreg Hrun.
+  assert (H : tab_ok c' /\ reg_src_ok (ds_reg s')); [|exact (proj2 H)].
+  eapply (run_stmts_sk_inv skipf univ (fun s0 _ c0 => tab_ok c0 /\ reg_src_ok (ds_reg s0))); [|split; [exact Htab|exact Hreg]|exact Hrun].
+  intros stmts0 s0 refs0 c0 s1 refs1 c1 e1 [H1 H2] Hr. split; [eapply run_stmts_tab_ok; eauto|eapply run_stmts_src_ok; eauto].
+Qed.
+Theorem parse_call_sk_src_ok : forall univ sk stmts sr, pget "__gin__" univ = None ->
+  reg_src_ok (ds_reg (fst sr)) -> reg_src_ok (ds_reg (fst (fst (parse_call_sk univ sk stmts sr)))).
+Proof.
+  intros univ sk stmts [s refs] Hu Hok. unfold parse_call_sk.
+  destruct (run_stmts_sk should_skip_dyn univ sk stmts s refs empty_ctx) as [[[s' refs'] c'] e] eqn:Hrun.
+  assert (H0 : tab_ok empty_ctx) by (intros n root d Hg; cbn in Hg; discriminate).
+  pose proof (run_stmts_sk_src_ok _ _ _ _ _ _ _ _ _ _ _ Hu H0 Hok Hrun) as H.
+  destruct e as [cls|]; cbn [fst ds_reg]; exact H.
+Qed.
 (* canonical_feature holds in every reachable state: C19_header_feature_first and the resolution theorems need no
    hypothesis about the recorded imports or the registry beyond reachability *)
 Theorem reachable_canonical_feature : forall univ pre sr, pget "__gin__" univ = None -> reg_src_ok pre ->
   reachable univ pre sr -> canonical_feature (fst sr).
 Proof.
   intros univ pre sr Hu Hpre H. split; [exact (reachable_imports_ok univ pre sr Hu H)|].
-  induction H as [|sr stmts H IH]; [exact Hpre|]. apply parse_call_src_ok; assumption.
+  induction H as [|sr sk stmts H IH]; [exact Hpre|]. apply parse_call_sk_src_ok; assumption.
 Qed.
 Corollary C19_header_feature_first_reachable : forall univ pre s refs, pget "__gin__" univ = None -> reg_src_ok pre ->
   reachable univ pre (s, refs) -> dynamic_on s = true -> header_bound s refs ->
@@ -1167,6 +1218,8 @@ Print Assumptions C19_header_no_reserved_name.
 Print Assumptions C19_header_feature_first.
 Print Assumptions process_import_feature_canonical.
 Print Assumptions parse_call_imports_ok.
+Print Assumptions parse_call_sk_imports_ok.
+Print Assumptions parse_call_sk_src_ok.
 Print Assumptions reachable_canonical_feature.
 Print Assumptions C19_header_feature_first_reachable.
 Print Assumptions Findings.C19_orig_header_not_reparsable_uppercase_module.
